@@ -24,7 +24,7 @@ namespace {
 enum Kind { K_VECTOR = 0, K_LIST, K_TREE, K_HASH, K_LTBL, K_NKIND };
 const char *kname(int k) { static const char *n[] = {"qvector", "qlist", "qtreetbl", "qhashtbl", "qlisttbl"}; return n[k]; }
 struct Op { int code; std::string key, val; };
-struct Prog { int kind; std::vector<std::string> init; std::vector<std::vector<Op>> thr; };
+struct Prog { int kind; std::vector<std::string> init; std::vector<std::vector<Op>> thr; bool unique = false; };
 
 const char *opname(int kind, int code) {
     static const char *seq[] = {"addlast", "addfirst", "popfirst", "poplast", "getfirst(copy)", "clear", "toarray", "removefirst", "addat(1)", "getlast(copy)", "tostring"};
@@ -35,7 +35,7 @@ std::string opstr(int kind, const Op &o) { std::string s = opname(kind, o.code);
 
 // ------------------------------------------------------------------ sequential model
 struct Model {
-    int kind;
+    int kind; bool unique = false;
     std::vector<std::string> seq;                       // vector / list
     std::vector<std::pair<std::string, std::string>> kv; // listtbl order; tree/hash as set
     std::string apply(const Op &o) {
@@ -56,7 +56,7 @@ struct Model {
         }
         auto find = [&](const std::string &k) { for (size_t i = kv.size(); i-- > 0;) if (kv[i].first == k) return (long)i; return -1L; };
         switch (o.code) {
-            case 0: { if (kind == K_LTBL) { kv.push_back({o.key, o.val}); return "T"; } long i = find(o.key); if (i >= 0) kv[(size_t)i].second = o.val; else kv.push_back({o.key, o.val}); return "T"; }
+            case 0: { if (kind == K_LTBL) { if (unique) for (size_t i = 0; i < kv.size();) { if (kv[i].first == o.key) kv.erase(kv.begin() + (long)i); else i++; } kv.push_back({o.key, o.val}); return "T"; } long i = find(o.key); if (i >= 0) kv[(size_t)i].second = o.val; else kv.push_back({o.key, o.val}); return "T"; }
             case 1: { long i = find(o.key); return i < 0 ? "NULL" : kv[(size_t)i].second; }
             case 2: { size_t n = 0; for (size_t i = 0; i < kv.size();) if (kv[i].first == o.key) { kv.erase(kv.begin() + (long)i); n++; } else i++; return kind == K_LTBL ? std::to_string(n) : (n ? "T" : "F"); }
             case 3: kv.clear(); return "";
@@ -236,7 +236,7 @@ void *create(const Prog &p) {
         case K_LIST: return qlist(QLIST_THREADSAFE);
         case K_TREE: return qtreetbl(QTREETBL_THREADSAFE);
         case K_HASH: return qhashtbl(3, QHASHTBL_THREADSAFE);
-        default: return qlisttbl(QLISTTBL_THREADSAFE);
+        default: return qlisttbl(QLISTTBL_THREADSAFE | (p.unique ? QLISTTBL_UNIQUE : 0));
     }
 }
 void destroy(const Prog &p, void *c) {
@@ -316,7 +316,7 @@ bool lin_search(const Prog &p, const std::vector<Obs> &h, std::vector<bool> &don
     return false;
 }
 std::string describe(const Prog &p, const Exec &ex) {
-    std::string s = std::string(kname(p.kind)) + " init[";
+    std::string s = std::string(kname(p.kind)) + (p.unique ? "(UNIQUE)" : "") + " init[";
     for (auto &e : p.init) s += e + " ";
     s += "]";
     std::vector<Obs> h = ex.hist; std::sort(h.begin(), h.end(), [](const Obs &a, const Obs &b) { return a.inv < b.inv; });
@@ -327,7 +327,7 @@ std::string describe(const Prog &p, const Exec &ex) {
 }
 void verdict(Ctx &c, const Prog &p, const Exec &ex) {
     if (S.leak) c.fail(LIN, (std::string("conc:lock-leaked:") + kname(p.kind)).c_str(), "all remaining threads wait for the container lock although no thread is inside an operation that could release it: %s", describe(p, ex).c_str());
-    Model m; m.kind = p.kind;
+    Model m; m.kind = p.kind; m.unique = p.unique;
     for (size_t i = 0; i < p.init.size(); i++) { Op o; o.code = 0; o.key = "k" + std::to_string(i); o.val = p.kind <= K_LIST ? pad4(p.init[i]) : p.init[i]; m.apply(o); }
     std::vector<bool> done(ex.hist.size(), false);
     // the model works on padded element values for sequences
@@ -341,7 +341,8 @@ void verdict(Ctx &c, const Prog &p, const Exec &ex) {
 
 Prog gen_prog(Src &s) {
     Prog p;
-    p.kind = (int)s.pick({4, 3, 2, 2, 2});
+    p.kind = (int)s.pick({4, 3, 2, 2, 3});
+    p.unique = p.kind == K_LTBL && s.boolean();
     int ninit = (int)s.range(0, 3);
     for (int i = 0; i < ninit; i++) p.init.push_back("i" + std::to_string(i));
     int nt = (int)s.pick({3, 1}) == 0 ? 2 : 3;
@@ -358,15 +359,55 @@ Prog gen_prog(Src &s) {
     }
     return p;
 }
+
+// ------------------------------------------------------------------ free-running stress (ThreadSanitizer flavour)
+// The same programs, threads running freely and repeating their operations; the verdict is
+// ThreadSanitizer's: any data-race report during the case is a violation ("no data race on
+// container state").  Selected by VF_FREERUN=1; only meaningful in the -fsanitize=thread build.
+std::atomic<int> g_tsan_reports{0};
+bool g_freerun_mode = false;
+struct FreeArg { const Prog *p; void *cont; int id; int iters; pthread_barrier_t *bar; };
+void *free_worker(void *a) {
+    FreeArg *fa = (FreeArg *)a;
+    pthread_barrier_wait(fa->bar);
+    for (int it = 0; it < fa->iters; it++) for (auto &o : fa->p->thr[(size_t)fa->id]) (void)do_op(*fa->p, fa->cont, o);
+    return nullptr;
+}
+void run_free(Src &s, Ctx &c) {
+    Prog p = gen_prog(s);
+    int iters = (int)s.range(20, 200);
+    void *cont = create(p);
+    if (!cont) throw CaseStop{"constructor failed"};
+    for (size_t i = 0; i < p.init.size(); i++) { Op o; o.code = 0; o.key = "k" + std::to_string(i); o.val = p.init[i]; do_op(p, cont, o); }
+    int before = g_tsan_reports.load();
+    pthread_barrier_t bar; pthread_barrier_init(&bar, nullptr, (unsigned)p.thr.size());
+    std::vector<pthread_t> th(p.thr.size()); std::vector<FreeArg> fa(p.thr.size());
+    for (size_t i = 0; i < p.thr.size(); i++) { fa[i] = FreeArg{&p, cont, (int)i, iters, &bar}; pthread_create(&th[i], nullptr, free_worker, &fa[i]); }
+    for (size_t i = 0; i < p.thr.size(); i++) pthread_join(th[i], nullptr);
+    pthread_barrier_destroy(&bar);
+    destroy(p, cont);
+    std::string d = std::string(kname(p.kind)) + " free-running x" + std::to_string(iters);
+    for (size_t t = 0; t < p.thr.size(); t++) { d += " | T" + std::to_string(t) + ":"; for (auto &o : p.thr[t]) d += " " + opstr(p.kind, o); }
+    c.op("%s", d.c_str());
+    int n = g_tsan_reports.load() - before;
+    if (n > 0) c.fail(LIN, (std::string("conc:data-race:") + kname(p.kind)).c_str(), "ThreadSanitizer reported %d data race(s) while running: %s", n, d.c_str());
+    c.nontrivial = p.thr.size() >= 2;
+    c.tag(std::string("freerun_") + kname(p.kind) == "" ? "x" : (std::string("freerun_") + kname(p.kind)).c_str());
+}
 }  // namespace
+extern "C" void __tsan_on_report(void *) { g_tsan_reports++; }
+namespace {
+}
 
 bool vf_configure(Ctx &c) {
     if (c.mode != "C13") return false;
     c.deciding = LIN | MEM | CRASH | HANG; c.noteonly = LEAK;
+    g_freerun_mode = getenv("VF_FREERUN") != nullptr;
     return true;
 }
 
 void run_case(Src &s, Ctx &c) {
+    if (g_freerun_mode) { run_free(s, c); return; }
     Prog p = gen_prog(s);
     S.forced.clear(); S.rnd = &s; S.preempt_num = (int)s.range(1, 3); S.preempt_den = 4;
     Exec ex;
@@ -391,11 +432,12 @@ bool vf_enumerate(Ctx &c, EnumStats &st) {
         std::vector<int> codes = kind <= K_LIST ? std::vector<int>{0, 2, 6, 8, 5} : std::vector<int>{0, 1, 2, 4};
         if (kind == K_LIST) codes.push_back(10);
         // programs: thread0 = [a] or [a,b], thread1 = [c]
-        for (int ninit = 0; ninit <= 1; ninit++)
+        for (int ninit = 0; ninit <= (kind == K_LTBL ? 3 : 1); ninit++)
             for (int a : codes) for (int b : codes) for (int cc : codes) for (int two = 0; two <= 1; two++) {
                 if (!two && b != codes[0]) continue;
                 if ((int)(pidx++ % (uint64_t)nshards) != shard) continue;
-                Prog p; p.kind = kind; for (int i = 0; i < ninit + (kind <= K_LIST ? 1 : 0); i++) p.init.push_back("i" + std::to_string(i));
+                Prog p; p.kind = kind; p.unique = kind == K_LTBL && ninit >= 2;
+                for (int i = 0; i < (ninit & 1) + (kind <= K_LIST ? 1 : 0); i++) p.init.push_back("i" + std::to_string(i));
                 auto mk = [&](int code, int n) { Op o; o.code = code; o.key = "k" + std::to_string(n % 2); o.val = "v" + std::to_string(n); return o; };
                 std::vector<Op> t0{mk(a, 0)}; if (two) t0.push_back(mk(b, 1));
                 p.thr.push_back(t0); p.thr.push_back({mk(cc, 2)});
